@@ -427,6 +427,38 @@ def generate(rng, profile='engine'):
             scn.pop(k_, None)
         scn['sws'] = None
         ops = scn['ops']
+    if profile == 'engine' and rng.random() < 0.02:
+        # an occurrence whose look-ahead context is completed by a LATER read of the same call than the one that brought the
+        # matched text (and the first characters of the context): whatever restricts a re-search to "the fresh data plus the
+        # longest possible match" starts too late.  All listed patterns are of bounded width here, no search window.
+        body, btxt = rng.choice([('a', 'a'), ('ab', 'ab'), ('c[ab]', 'cb'), ('b{2}', 'bb'), ('[ab]c', 'ac')])
+        la = ''.join(rng.choice('abc') for _ in range(rng.choice([2, 3, 4, 6])))
+        pre_ = ''.join(rng.choice('xyz \r\n') for _ in range(rng.choice([0, 1, 5, 40, 300])))
+        post_ = ''.join(rng.choice('xyz') for _ in range(rng.choice([0, 1, 5])))
+        if rng.random() < 0.5:
+            post_ += btxt + la + rng.choice(['', 'z'])      # a second, complete occurrence further on: the first one must win
+        cut_in = rng.randint(1, len(la) - 1)
+        first = pre_ + btxt + la[:cut_in]
+        k0 = rng.randint(0, len(pre_))
+        pieces_ = ([first[:k0]] if k0 else []) + [first[k0:], la[cut_in:] + post_]
+        gap_ = rng.choice([50, 400, 3000])
+        scn['peer'] = [{'op': 'w', 'd': pc_, 'dt': (gap_ if i_ else 5)} for i_, pc_ in enumerate(pieces_)]
+        scn['peer'].append({'op': 'exit', 'code': 0, 'dt': 20000} if tr in ('pty', 'popen') else {'op': 'close', 'dt': 20000})
+        pats_ = [{'t': 're', 'p': '%s(?=%s)' % (body, la)}]
+        for _ in range(rng.choice([0, 0, 1, 2])):
+            pats_.insert(rng.randint(0, len(pats_)), {'t': 're', 'p': rng.choice(['q', 'zq', 'x[yz]q', 'q{3}', '(?<=q)x'])})
+        if rng.random() < 0.3:
+            pats_.append({'t': rng.choice(['EOF', 'TIMEOUT'])})
+        scn['ops'] = [{'op': 'expect', 'api': rng.choice(['expect', 'expect_list']), 'pats': pats_, 'to': 0.03, 'sws': rng.choice([-1, None])},
+                      {'op': 'expect', 'api': 'expect', 'pats': [{'t': 'EOF'}, {'t': 'TIMEOUT'}], 'to': 0.03, 'sws': -1}]
+        scn['sws'] = None
+        scn['maxread'] = rng.choice([2000, 2000, 64])
+        scn['timeout'] = 0.03
+        for k_ in ('tear', 'cap', 'ignorecase', 'fold', 'intr', 'eintr'):
+            scn.pop(k_, None)
+        if 'enc' in scn:
+            pass        # (the text is ASCII: fine in either mode)
+        ops = scn['ops']
     if tr != 'popen' and rng.random() < 0.15:
         scn['twin'] = True
         scn['twin_at'] = sorted(set(rng.randrange(max(1, len(ops))) for _ in range(rng.randint(1, 3))))
